@@ -70,14 +70,14 @@ func minInt(a, b int) int {
 func c06Split(c *core.Ctx) {
 	models := statefulModels()
 	model := models[c.Idx%len(models)]
-	N := []int{1, 2}[c.R.Intn(2)]
+	N := []int{1, 2, 3}[c.R.Intn(3)]
 	T := c.R.IntRange(2, 60)
 	if c.R.Bool(0.3) {
 		T = c.R.IntRange(20, 120)
 	}
 	wc := 0
 	if needsWidthClass(model) {
-		wc = 1 + c.R.Intn(13)
+		wc = widthClassFor(c.R, N)
 	}
 	run := GenRun(model, c.R, N, N, N, T, wc)
 	kind, splits := splitSchedule(c.R, T)
